@@ -679,7 +679,7 @@ class _DataOperationContextInjectorProbeNode(_DataOperationNode):
         }
 
         try:
-            assert hasattr(cls.processor, "_send_data")
+            assert hasattr(cls.processor, "_process_logic")
             component_metadata["wrapped_component"] = getattr(
                 cls.processor, "__name__", type(cls.processor).__name__
             )
